@@ -71,11 +71,12 @@ def bounds(tier):
 
 
 CHUNK = 8
+ALG_SHARDS = 12
 
 
 def shards(tier):
     n = len(trees(tier))
-    return [("trees", i, min(i + CHUNK, n)) for i in range(0, n, CHUNK)] + [("algebra",)]
+    return [("algebra", i) for i in range(ALG_SHARDS)] + [("trees", i, min(i + CHUNK, n)) for i in range(0, n, CHUNK)]
 
 
 _ACC_CACHE = {}
@@ -144,7 +145,7 @@ def is_plain_class(arg):
 def run_shard(shard, tier):
     acc = Acc()
     if shard[0] == "algebra":
-        _algebra(acc, tier)
+        _algebra(acc, tier, shard[1])
         return acc
     _, lo, hi = shard
     atoms = stable_atoms()
@@ -308,7 +309,7 @@ def _same_type(a, b):
     return a is b or (getattr(a, "__combinator__", None) == getattr(b, "__combinator__", None) and repr(a) == repr(b))
 
 
-def _algebra(acc, tier):
+def _algebra(acc, tier, part):
     """construction algebra on the built types and on behaviour (every atom)"""
     atoms = stable_atoms()
 
@@ -323,7 +324,12 @@ def _algebra(acc, tier):
         except Exception as e:
             return ("other", type(e).__name__)
 
+    counter = [0]
+
     def same_behaviour(kind, ea, eb, strict_type=True):
+        counter[0] += 1
+        if counter[0] % ALG_SHARDS != part:
+            return
         try:
             ta, tb = build(ea), build(eb)
         except Exception as e:
